@@ -188,6 +188,9 @@ class boussinesq_2d_imex(Problem):
             callback=cb,
         )
         # If this is a dummy call with factor==0.0, do not log because it should not be counted as a solver call
+        if info != 0:
+            self.logger.warning(f'GMRES did not converge to gmres_tol_limit={self.gmres_tol_limit} (info={info})')
+
         if factor != 0.0:
             self.gmres_logger.add(cb.getcounter())
         me = self.dtype_u(self.init)
